@@ -382,6 +382,7 @@ def thunks():
     reg("imager_n_jobs1", lambda P: imager(birth_range=(0.0, 3.0), pers_range=(0.0, 3.0)).transform([P["A"], P["C"]], n_jobs=1), ["A", "C"], forms=af)
     reg("imager_n_jobs1_noskew", lambda P: imager(birth_range=(0.0, 3.0), pers_range=(0.0, 3.0), kernel_params={"sigma": P["sigma"]}).transform(P["A"], skew=False, n_jobs=1), ["A", "sigma"], forms=af)
     reg("imager_sigma_array_persistence_weight", lambda P: imager(birth_range=(0.0, 3.0), pers_range=(0.0, 3.0), kernel_params={"sigma": P["sigma"]}, weight="persistence", weight_params={"n": 2.0}).transform([P["A"], P["B"]]), ["A", "B", "sigma"], forms=af)
+    reg("imager_narrow_high_correlation", lambda P: imager(birth_range=(0.0, 3.0), pers_range=(0.0, 3.0), kernel_params={"sigma": P["sigma_hc"]}).transform([P["A"], P["B"]]), ["A", "B", "sigma_hc"], forms=af)
     reg("imager_fit_transform_noskew", lambda P: imager().fit_transform([P["A"], P["C"]], skew=False), ["A", "C"], forms=af)
     reg("heat_tiny_sigma", lambda P: persim.heat(P["A8"], P["C"], sigma=0.05), ["A8", "C"], forms=af)
     reg("sliced_wasserstein_M131", lambda P: persim.sliced_wasserstein(P["A8"], P["B8"], M=131), ["A8", "B8"], forms=bf)
@@ -523,7 +524,7 @@ def make_pool(f, variant=0):
         "G1": form(G1, gf), "G2": form(G2, gf), "G3": form(G3, gf),
         "CY6": form(cycle(6), gf), "CY8": form(cycle(8), gf), "ST5": form(star(5), gf),
         "GR34": form(grid_graph(3, 4), gf), "GR35": form(grid_graph(3, 5), gf), "TR15": form(binary_tree(15), gf), "CY14": form(cycle(14), gf),
-        "order": np.array([1.0, 1.0]), "order0": np.array([0.0, 2.0]), "coeffs": [2.0, -1.0], "labels": ["first", "second"], "labels1": ["only"], "ax_color": np.array([0.1, 0.2, 0.3]),
+        "order": np.array([1.0, 1.0]), "order0": np.array([0.0, 2.0]), "coeffs": [2.0, -1.0], "labels": ["first", "second"], "labels1": ["only"], "sigma_hc": np.array([[0.01, 0.0096], [0.0096, 0.01]]), "ax_color": np.array([0.1, 0.2, 0.3]),
         "VALS": form([[0, 1, 2, 1, 0], [0, 0, 1, 0, 0]], "f64" if f == "list" else f),
         "CP": [[[0.0, 0.0], [1.0, 1.0], [2.5, -0.5], [4.0, 0.0]], [[1.0, 0.0], [2.0, 1.0], [3.0, 0.0]]],
         "val_inf_low": VARIANTS[variant][0] * 2.5 + VARIANTS[variant][1], "win": [VARIANTS[variant][0] * 1.0 + VARIANTS[variant][1], VARIANTS[variant][0] * 6.5 + VARIANTS[variant][1]],
@@ -673,6 +674,18 @@ def cases(tier):
 _CALLS = [0]
 
 
+def _poison_heap(P, k):
+    """Freshly freed heap blocks of the sizes the library is likely to allocate are filled with a value that
+    changes from call to call: a buffer obtained with np.empty and not written completely makes the result
+    differ between two calls (instead of reading, by luck, the same zeros twice)."""
+    sizes = {1, 2, 3, 4, 5, 6, 9, 16, 25, 36, 49, 64, 81, 169, 289}
+    for v in P.values():
+        if isinstance(v, np.ndarray):
+            sizes.update([int(v.size), int(v.shape[0])])
+    junk = [np.full(m, 1000.0 * k + 0.5) for n in sorted(sizes) if n > 0 for m in (n, n + 1, 2 * n)]
+    del junk
+
+
 def call(ctx, T, name, P):
     import random
 
@@ -681,6 +694,7 @@ def call(ctx, T, name, P):
     # another random source is not reproducible
     _CALLS[0] += 1
     random.seed(_CALLS[0])
+    _poison_heap(P, _CALLS[0])
     ctx.trans()
     with warnings.catch_warnings():
         warnings.simplefilter("ignore")
